@@ -419,11 +419,16 @@ pub fn tie_history<P: PT>() -> BoxedStrategy<(Vec<Step>, u64)> {
     let ms = gen::max_scale(n, es);
     (gen::tie_pair_ops(n, es, 0, 1), any::<u64>(), history::<P>(false, 2)).prop_map(move |((_, a, b), raw, (tail, perm))| {
         let mut steps = vec![Step { code: 2, p: [a, 0, 0, 0] }, Step { code: 2, p: [b, 0, 0, 0] }];
-        // tiny product: scales in the lower third of the range, so that it is far below the sum's ulp
-        let s1 = -ms + (raw % (ms as u64 / 3 + 1)) as i32;
-        let s2 = -ms + ((raw >> 16) % (ms as u64 / 3 + 1)) as i32;
-        let ta = gen::make(n, es, false, s1, (raw >> 32) << 60);
-        let tb = gen::make(n, es, false, s2, (raw >> 40) << 61);
+        // tiny product at a drawn depth below the sum (uniform over the whole reach of the quire), half of
+        // the time a pure power of two: then the only sticky information is ONE bit at that depth
+        let sv = gen::scale_of(n, es, a).unwrap_or(0).max(gen::scale_of(n, es, b).unwrap_or(0));
+        let depth = n as i32 / 2 + (raw % (2 * ms as u64 + 8)) as i32;
+        let target = (sv - depth).max(-2 * ms);
+        let s1 = (target / 2 + ((raw >> 16) % 9) as i32 - 4).clamp(-ms, ms);
+        let s2 = (target - s1).clamp(-ms, ms);
+        let pure = raw >> 58 & 1 == 1;
+        let ta = gen::make(n, es, false, s1, if pure { 0 } else { (raw >> 32) << 60 });
+        let tb = gen::make(n, es, false, s2, if pure { 0 } else { (raw >> 40) << 61 });
         match (raw >> 60) % 3 {
             0 => steps.push(Step { code: 0, p: [ta, tb, 0, 0] }),
             1 => steps.push(Step { code: 1, p: [ta, tb, 0, 0] }),
